@@ -20,14 +20,17 @@
                                      `def main(ς:i64):i64{ (1+2)+ς }`: Fun 13, Core 6 on argument 10
                                      (specification level).
     C02_sem_full_statement       the corrected FULL statement: as given, plus `validMain`,
-                                 `Fun.noMainCall`, no name `ς`.  NOT proved in full (see below).
+                                 `Fun.noMainCall`, no name `ς`.  PROVED IN FULL: `C02_sem`
+                                 (Props/C02SemFull.lean) — all sequenced accepted programs, codata
+                                 included, all four clauses of `ObsSame`, all argument lists.
 
-  THEOREMS
+  THEOREMS (this file: the fragment `fragOk`, kept for the end-to-end composition which uses
+  `C02_sem_forward_link`; every program of the fragment is also covered by `C02_sem`)
     C02_sem_forward_frag   THE FORWARD HALF (clauses 1 and 3 of `C02_ObsSame`: every finished Fun run —
                            a result or an arithmetic fault — is matched by a Core run with the same trace
-                           and the same outcome; every Fun trace is a prefix of a Core trace) for ALL
-                           programs of the fragment `Fun2Core.Sem.fragOk` (Scc/Fun2Core/SemFrag.lean),
-                           all arguments, all fuel:
+                           and the same outcome; every Fun trace is a prefix of a Core trace) for the
+                           accepted programs of the fragment `Fun2Core.Sem.fragOk`
+                           (Scc/Fun2Core/SemFrag.lean), all arguments, all fuel:
                              first-order integers (literals, variables, operators incl. `/ %` and their
                              faults, `let`, `if`, calls, `print`, `exit`, parentheses),
                              data (constructors and `case`, incl. the lifting of shared continuations
@@ -41,55 +44,37 @@
                              integer or data type.
                            By a simulation between CEK states and Core machine states
                            (Scc/Fun2Core/Sem*.lean: a Fun frame corresponds to a `μ~`-closure / `case`
-                           consumer value, a Fun continuation value to a Core consumer value).
-                           This is the half used by the end-to-end composition `C01_composition`
-                           (which applies only clause 1 of `ObsSame`).
-    C02_sem_forward_link   the same for `p'` produced by the checker, in the shape of the C01 link.
+                           consumer value / destructor value, a Fun continuation value to a Core
+                           consumer value).  The simulation is the one of `C02_sem` (it covers all
+                           sequenced programs and carries the typing of the Fun state, which is why
+                           the theorems below speak about the checker's output).
+    C02_sem_forward_link   the same in the shape of the C01 link (`C01_composition` applies only
+                           clause 1 of `ObsSame`).
     C02_sem_frag_of_finished   ALL FOUR CLAUSES of `C02_ObsSame` for the programs of the fragment and the
                            arguments on which the Fun machine FINISHES (a result or an arithmetic fault
-                           at some fuel) — no further hypothesis.
+                           at some fuel).
     C02_sem_frag_of_safe   ALL FOUR CLAUSES for the programs of the fragment and the arguments on which
                            the Fun machine never gets stuck for a reason other than an arithmetic fault
-                           (`C02_FunSafe`; i.e. additionally to the previous theorem: a Fun run that goes
-                           on forever is matched by a Core run that goes on forever with the same trace).
-                           Backward half by: in every chunk of the simulation the Core machine advances
-                           or the Fun machine arrives at a smaller term (Scc/Fun2Core/SemBack.lean),
-                           determinism of the Core machine, monotonicity of its output.
+                           (`C02_FunSafe`).  Backward half by: in every chunk of the simulation the Core
+                           machine advances or the Fun machine arrives at a smaller term
+                           (Scc/Fun2Core/SemBack.lean), determinism of the Core machine, monotonicity of
+                           its output.
     C02_funSafe_of_finished    a finishing Fun run is `C02_FunSafe`.
     C02_sem_frag_modulo_safety  `C02_funSafe_statement` → `C02_ObsSame` for all checked programs of the
-                           fragment (arguments as many as `main` has parameters).
+                           fragment (arguments as many as `main` has parameters); the hypothesis is
+                           discharged in Props/C02SemSafe.lean (`C02_funSafe`, `C02_sem_frag`).
     C02_sem_statement_as_given_false   ¬ C02_sem_statement_as_given (witness: a tail call of `main`,
                            `def main(n){ if n == 0 {0} else {main(n - 1)} }` on the argument 1).
-  NOT PROVED (precise obstacles)
-    * `C02_funSafe_statement` (def): checked programs with a valid `main` never get stuck in the Fun
-      machine for a reason other than an arithmetic fault (type safety of the CEK machine w.r.t. the
-      checker; a statement about `checkProgram` and `Fun.step` only).  It is the ONLY thing missing for
-      the backward half on the fragment: with it `C02_sem_frag_of_safe` gives `C02_ObsSame` for every
-      checked program of the fragment.  Without it the backward half is false (for an ill-typed state
-      the Core machine evaluates the second operand of `if` before it notices that the first is not an
-      integer, so it can finish where the Fun machine is stuck).
-    * codata beyond the restriction above: destructor calls on a call / destructor chain
-      (`mk(n).apply(4)`, `s.tail.tail.head`), definitions / destructors / `if` / `case` that RETURN
-      codata.  There the Core machine evaluates the arguments of the destructor BEFORE the scrutinee
-      is run (and suspends `μ`s as thunks when a continuation is shared); relating this to the Fun
-      machine needs that pure argument terms cannot get stuck, i.e. again (kind-level) type safety of
-      the Fun machine.  (On the repository's corpus: 106 of the 121 sequenced programs with a valid
-      `main` are in `fragOk`; 14 of the other 15 are of this kind, 1 calls `main`.)
-      A possible extension WITHOUT type safety (not done): index the continuation relation by the
-      kind (codata / not) of the expected value, add the frame `dtorScrut` ~ destructor value, and
-      require decidably that (a) the arguments of a destructor call with a non-value scrutinee are
-      variables / literals / `new` / constructors of such, (b) every destructor name has the same
-      return kind in all instances, (c) labels and covariable parameters have non-codata types;
-      a survey of this predicate accepts 113 of the 121 programs.
-    * hypotheses of `fragOk` that the checker guarantees but that are assumed here as decidable
-      checks: pairwise distinct parameter / clause binder names, closedness of definition bodies,
-      pairwise distinct definition names; and on the OUTPUT `coreClosed q` (every translated
-      definition mentions only its parameters; needs the scoping lemma of fun2core).
+  `fragOk` contains, besides the description of the fragment (`fragT`), decidable conditions that
+  hold of EVERY accepted program (`good` of every body; distinct names, closed bodies, integer
+  signature of `main`): Props/C02SemFull.lean derives them from the checker (`C02_progOk`), and
+  `coreClosed` of the translation too (`C02_coreClosed`).
 -/
 import Scc.Pipeline
 import Scc.Fun.CheckSound1
 import Scc.Fun2Core.SemFrag
 import Scc.Fun.Parse
+import Scc.Fun2Core.TypedCheck
 
 namespace Scc.Props
 
@@ -188,11 +173,13 @@ theorem C02_obs_of_match {out : List (Bool × Word)} {r : Fun.Result} {r' : Core
 program of the fragment `fragOk`, whose translation is `q2` (with every translated definition
 closed), and all arguments: every finished run of the Fun machine is matched by a run of the Core
 ς-machine on `q2` with the same trace and outcome, and every Fun trace is a prefix of a Core trace. -/
-theorem C02_sem_forward_frag (p' : Fun.CheckedProgram) (q2 : Core.Prog)
+theorem C02_sem_forward_frag (p : Fun.Program) (p' : Fun.CheckedProgram) (q2 : Core.Prog)
+    (hn : programNamesOk p = true) (hck : checkProgram p = .ok p')
     (hf : Fun2Core.Sem.fragOk p' = true) (hc : Fun2Core.compileProg p' = .ok q2)
     (hq : Fun2Core.Sem.coreClosed q2 = true) (args : List Word) :
     C02_ObsForward (fun n => ofFun (Fun.run p' args n)) (fun n => ofCore (Core.run q2 args n)) := by
-  obtain ⟨h1, h2⟩ := Fun2Core.Sem.sem_forward hc (Fun2Core.Sem.progOk_of_fragOk hf) hq args
+  obtain ⟨h1, h2⟩ := Fun2Core.Sem.sem_forward hc (Fun2Core.Sem.progOk_of_fragOk hf) hq
+    (Fun2Core.Typed.checkProgram_progM hn hck) args
   refine ⟨fun n hfin => ?_, fun n => ?_⟩
   · obtain ⟨m, r', hm, hr⟩ := h1 n (C02_finished_of_obs hfin)
     refine ⟨m, ?_⟩
@@ -204,12 +191,12 @@ theorem C02_sem_forward_frag (p' : Fun.CheckedProgram) (q2 : Core.Prog)
 /-- the same in the shape of the link used by the end-to-end composition (`C01_composition` applies
 clause 1 of `ObsSame`): for checked programs of the fragment -/
 theorem C02_sem_forward_link (p : Fun.Program) (p' : Fun.CheckedProgram) (q2 : Core.Prog)
-    (_hn : programNamesOk p = true) (_hck : checkProgram p = .ok p')
+    (hn : programNamesOk p = true) (hck : checkProgram p = .ok p')
     (hf : Fun2Core.Sem.fragOk p' = true) (hc : Fun2Core.compileProg p' = .ok q2)
     (hq : Fun2Core.Sem.coreClosed q2 = true) (args : List Word) (n : Nat)
     (hfin : C02_ObsFinished (ofFun (Fun.run p' args n)).res) :
     ∃ m, ofCore (Core.run q2 args m) = ofFun (Fun.run p' args n) :=
-  (C02_sem_forward_frag p' q2 hf hc hq args).1 n hfin
+  (C02_sem_forward_frag p p' q2 hn hck hf hc hq args).1 n hfin
 
 /-- the Fun run never gets stuck for a reason other than an arithmetic fault (what type safety of
 the CEK machine w.r.t. the checker would give for checked programs with a valid `main`) -/
@@ -229,11 +216,12 @@ the fragment `fragOk`, whose translation is `q2` (with every translated definiti
 arguments on which the Fun machine does not get stuck for a reason other than an arithmetic fault:
 the Fun machine on the program and the Core ς-machine on `q2` have the same observable behaviour
 (all four clauses of `ObsSame`). -/
-theorem C02_sem_frag_of_safe (p' : Fun.CheckedProgram) (q2 : Core.Prog)
+theorem C02_sem_frag_of_safe (p : Fun.Program) (p' : Fun.CheckedProgram) (q2 : Core.Prog)
+    (hn : programNamesOk p = true) (hck : checkProgram p = .ok p')
     (hf : Fun2Core.Sem.fragOk p' = true) (hc : Fun2Core.compileProg p' = .ok q2)
     (hq : Fun2Core.Sem.coreClosed q2 = true) (args : List Word) (hs : C02_FunSafe p' args) :
     C02_ObsSame (fun n => ofFun (Fun.run p' args n)) (fun n => ofCore (Core.run q2 args n)) := by
-  obtain ⟨f1, f3⟩ := C02_sem_forward_frag p' q2 hf hc hq args
+  obtain ⟨f1, f3⟩ := C02_sem_forward_frag p p' q2 hn hck hf hc hq args
   have hs' : Fun2Core.Sem.FunSafe p' args := by
     intro n
     rcases hs n with h | h
@@ -242,7 +230,8 @@ theorem C02_sem_frag_of_safe (p' : Fun.CheckedProgram) (q2 : Core.Prog)
       simp only [ofFun]
       cases (Fun.run p' args n).res <;> simp
     · exact .inr (C02_finished_of_obs h)
-  obtain ⟨b2, b4⟩ := Fun2Core.Sem.sem_backward hc (Fun2Core.Sem.progOk_of_fragOk hf) hq args hs'
+  obtain ⟨b2, b4⟩ := Fun2Core.Sem.sem_backward hc (Fun2Core.Sem.progOk_of_fragOk hf) hq
+    (Fun2Core.Typed.checkProgram_progM hn hck) args hs'
   refine ⟨f1, fun m hfin => ?_, f3, fun m => ?_⟩
   · have hne : (Core.run q2 args m).res ≠ .outOfFuel := by
       intro e
@@ -302,12 +291,13 @@ theorem C02_funSafe_of_finished (p' : Fun.CheckedProgram) (args : List Word) (n0
 /-- **C02, semantic part, fragment, finishing runs**: if the Fun machine finishes on the arguments
 (with a result or an arithmetic fault), the Fun machine on the program and the Core ς-machine on its
 translation have the same observable behaviour (all four clauses of `ObsSame`) -/
-theorem C02_sem_frag_of_finished (p' : Fun.CheckedProgram) (q2 : Core.Prog)
+theorem C02_sem_frag_of_finished (p : Fun.Program) (p' : Fun.CheckedProgram) (q2 : Core.Prog)
+    (hn : programNamesOk p = true) (hck : checkProgram p = .ok p')
     (hf : Fun2Core.Sem.fragOk p' = true) (hc : Fun2Core.compileProg p' = .ok q2)
     (hq : Fun2Core.Sem.coreClosed q2 = true) (args : List Word) (n0 : Nat)
     (h : C02_ObsFinished (ofFun (Fun.run p' args n0)).res) :
     C02_ObsSame (fun n => ofFun (Fun.run p' args n)) (fun n => ofCore (Core.run q2 args n)) :=
-  C02_sem_frag_of_safe p' q2 hf hc hq args (C02_funSafe_of_finished p' args n0 h)
+  C02_sem_frag_of_safe p p' q2 hn hck hf hc hq args (C02_funSafe_of_finished p' args n0 h)
 
 /-- the full equivalence on the fragment for checked programs, reduced to the safety of the Fun
 machine on checked programs -/
@@ -318,13 +308,13 @@ theorem C02_sem_frag_modulo_safety (hsafe : C02_funSafe_statement)
     (hq : Fun2Core.Sem.coreClosed q2 = true) (args : List Word)
     (hlen : args.length = (p'.defs.find? (·.name == "main")).elim 0 (·.ctx.length)) :
     C02_ObsSame (fun n => ofFun (Fun.run p' args n)) (fun n => ofCore (Core.run q2 args n)) :=
-  C02_sem_frag_of_safe p' q2 hf hc hq args (hsafe p p' hn hck hvm args hlen)
+  C02_sem_frag_of_safe p p' q2 hn hck hf hc hq args (hsafe p p' hn hck hvm args hlen)
 
 /-- `fragOk` contains the hypotheses of the full statement that are about the shape of the program -/
 theorem C02_fragOk_sequenced {p' : Fun.CheckedProgram} (h : Fun2Core.Sem.fragOk p' = true) :
     Fun.Sequenced p' = true ∧ Fun.noMainCall p' = true ∧ C02_noSigmaNames p' = true := by
   simp only [Fun2Core.Sem.fragOk, Bool.and_eq_true] at h
-  obtain ⟨⟨⟨⟨h1, h2⟩, h4⟩, _⟩, _⟩ := h
+  obtain ⟨⟨⟨⟨⟨⟨h1, h2⟩, h4⟩, _⟩, _⟩, _⟩, _⟩ := h
   refine ⟨h1, h2, ?_⟩
   simp only [C02_noSigmaNames, List.all_eq_true, Bool.and_eq_true] at h4 ⊢
   intro d hd
